@@ -209,10 +209,14 @@ pub fn bfs(spec: &BfsSpec) -> BfsResult {
                             }
                         }
                         "violation" => {
+                            // a failure that does not repeat identically is still a failure of the real engine
+                            // on this history; it is reported as a violation and flagged so that the reader
+                            // knows the re-runs differed (engine-side nondeterminism)
                             if rep.reproduced >= 2 {
                                 res.violations.push(mk(rep.detail.clone()));
                             } else {
                                 res.unstable.push(mk(format!("(reproduced {} of 2 re-runs) {}", rep.reproduced, rep.detail)));
+                                res.violations.push(mk(format!("(UNSTABLE: the same failure was reproduced in {} of 2 re-runs from scratch) {}", rep.reproduced, rep.detail)));
                             }
                         }
                         "machinery" => res.machinery.push(format!("{} :: {}", script.join(" ; "), rep.detail)),
@@ -252,4 +256,31 @@ pub fn bfs(spec: &BfsSpec) -> BfsResult {
         }
     }
     res
+}
+
+/// What two runs of the same case must agree on to count as "the same failure": the first line of the
+/// detail with per-run noise (scratch paths, addresses, ids, timings) removed.
+pub fn failure_signature(s: &str) -> String {
+    let line = s.lines().next().unwrap_or("");
+    let mut out = String::new();
+    let mut in_path = false;
+    for c in line.chars() {
+        if in_path {
+            if c.is_whitespace() || c == '"' || c == '\'' || c == ')' {
+                in_path = false;
+            } else {
+                continue;
+            }
+        }
+        if c == '/' {
+            in_path = true;
+            out.push_str("<path>");
+            continue;
+        }
+        if c.is_ascii_digit() {
+            continue;
+        }
+        out.push(c);
+    }
+    out
 }
